@@ -7,6 +7,7 @@ package c07
 import (
 	"sort"
 	"strings"
+	"unicode/utf8"
 
 	"github.com/emersion/go-vcard"
 	"github.com/emersion/go-webdav/carddav"
@@ -197,6 +198,63 @@ func nonASCII(s string) bool {
 	return false
 }
 
+// isHan: CJK unified ideographs of the basic block. They have no case and no
+// (compatibility) decomposition, and the only characters that normalise TO one
+// of them live at or above U+2E80 (radicals, compatibility and enclosed
+// ideographs): under every collation a client may mean - octets, ASCII case
+// map, Unicode case map (full case folding + NFKD) - such a character equals
+// itself and nothing else.
+func isHan(r rune) bool { return r >= 0x4E00 && r <= 0x9FFF }
+
+// plainText: valid UTF-8 made of ASCII and basic-block ideographs only. On
+// such text every collation works character by character and can at most
+// fold the case of ASCII letters.
+func plainText(s string) bool {
+	if !utf8.ValidString(s) {
+		return false
+	}
+	for _, r := range s {
+		if r >= 0x80 && !isHan(r) {
+			return false
+		}
+	}
+	return true
+}
+
+// hanForeign: a holds an ideograph that b cannot contain under any
+// normalisation: b lacks it, and b has no character at or above U+2E80 other
+// than basic-block ideographs.
+func hanForeign(a, b string) bool {
+	if !utf8.ValidString(a) || !utf8.ValidString(b) {
+		return false
+	}
+	for _, r := range b {
+		if r >= 0x2E80 && !isHan(r) {
+			return false
+		}
+	}
+	for _, r := range a {
+		if isHan(r) && !strings.ContainsRune(b, r) {
+			return true
+		}
+	}
+	return false
+}
+
+// collationProof: no exact and no ASCII-case-folded hit, and no collation can
+// turn the miss into a hit: either both texts are plain (then the folded
+// comparison above was already the most lenient reading), or the needle holds
+// an ideograph foreign to the value (for equals: or the other way round).
+func collationProof(mt, value, needle string) bool {
+	if plainText(value) && plainText(needle) {
+		return true
+	}
+	if hanForeign(needle, value) {
+		return true
+	}
+	return mt == "equals" && hanForeign(value, needle)
+}
+
 type evaluator struct{ why uint32 }
 
 // text evaluates one text-match against one value.
@@ -221,7 +279,7 @@ func (e *evaluator) text(tm *carddav.TextMatch, value string) vset {
 		// does not name a collation: both readings are accepted.
 		e.why |= whyTextCase
 		out = vT | vF
-	case nonASCII(value) || nonASCII(tm.Text):
+	case (nonASCII(value) || nonASCII(tm.Text)) && !collationProof(mt, value, tm.Text):
 		// i;unicode-casemap folds and decomposes; without an exact hit the
 		// verdict on non-ASCII text depends on the collation.
 		e.why |= whyNonASCII
